@@ -337,6 +337,18 @@ func init() {
 		flatten(args[1], &r)
 		return AndB(Eq(l[0].(*Term), r[0].(*Term)), Eq(l[1].(*Term), r[1].(*Term)), Eq(l[3].(*Term), r[3].(*Term)))
 	})
+	regStub("maps.Clone", func(ex *Exec, fn *ssa.Function, args []Value) Value {
+		m, _ := args[0].(*MapV)
+		if m == nil {
+			return m
+		}
+		objCount++
+		nm := &MapV{ID: objCount, KeyT: m.KeyT, ValT: m.ValT}
+		for _, e := range m.Entries {
+			nm.Entries = append(nm.Entries, &MapEntry{K: copyValue(e.K), V: copyValue(e.V)})
+		}
+		return nm
+	})
 	regStub("strings.Clone", func(ex *Exec, fn *ssa.Function, args []Value) Value { return args[0] })
 	regStub("runtime.KeepAlive", noop)
 	regStub("runtime.Gosched", func(ex *Exec, fn *ssa.Function, args []Value) Value { ex.sched.point(); return nil })
